@@ -70,7 +70,63 @@ func pureSlice[T comparable, R comparable](e *env[T], fn string, elems []T, spar
 			map[string]any{"fn": fn, "input": in})
 		return got, g, false
 	}
+	if !independentOf(x, fn, in, got, []*gslice[T]{g}) {
+		return got, g, false
+	}
 	return got, g, true
+}
+
+// poisons returns two values of T that no workload generates (T is int, string or item).
+func poisons[T comparable]() (T, T) {
+	var z T
+	switch any(z).(type) {
+	case int:
+		return any(-8).(T), any(-9).(T)
+	case string:
+		return any("\x00poison1").(T), any("\x00poison2").(T)
+	case item:
+		return any(item{-8, -8}).(T), any(item{-9, -9}).(T)
+	}
+	panic("poisons: unsupported element type")
+}
+
+// independentOf: result independence of a helper that returns a new slice and is not documented to
+// share storage with its inputs. First every cell of the inputs' backing arrays is overwritten: the
+// result must not change. Then every cell of the result, including its spare capacity, is
+// overwritten: the inputs' arrays must not change. (Both slices are dead afterwards.)
+func independentOf[T comparable, R comparable](x *cx, fn, in string, got []R, inputs []*gslice[T]) bool {
+	if x.failed {
+		return false
+	}
+	p1, _ := poisons[T]()
+	_, p2 := poisons[R]()
+	snap := cloneOf(got)
+	for _, g := range inputs {
+		for i := range g.arr {
+			g.arr[i] = p1
+		}
+	}
+	x.evals++
+	if !eqSlice(got, snap) {
+		x.fail(fn+"-result-aliases-input", fmt.Sprintf("%s(%s) returned %v; overwriting the input afterwards changed the returned slice to %v: the result shares storage with its input, which the documentation does not promise", fn, in, show(snap), show(got)),
+			map[string]any{"fn": fn, "input": in})
+		return false
+	}
+	full := got[:cap(got)]
+	for i := range full {
+		full[i] = p2
+	}
+	for k, g := range inputs {
+		for i := range g.arr {
+			if g.arr[i] != p1 {
+				x.fail(fn+"-result-aliases-input", fmt.Sprintf("%s(%s): overwriting the returned slice (and its spare capacity) wrote into the backing array of input %d: the result shares storage with its input, which the documentation does not promise", fn, in, k),
+					map[string]any{"fn": fn, "input": in})
+				return false
+			}
+		}
+	}
+	x.observe("result independence", fn)
+	return true
 }
 
 // inPlace: a call documented to work in place and return the modified slice: the result has the
@@ -734,6 +790,7 @@ func (e *env[T]) join(ins [][]T, key string) {
 		}
 	}
 	x.observe("argument integrity", "xslices.Join")
+	independentOf(x, "xslices.Join", in, got, gs)
 }
 
 // ---------------------------------------------------------------------------------------------
